@@ -9,6 +9,7 @@
 import ICal.Lemmas.Fold
 import ICal.Lemmas.FoldLines
 import ICal.Lemmas.FoldBytes
+import ICal.Lemmas.BodiesFold
 namespace ICal.C06
 
 /-- Master statement, generic in the limit (`5 ≤ limit`: a 4-octet character must fit): the
@@ -208,5 +209,27 @@ theorem fold_bytes_utf8 (l : Str) (h : LF ∉ l) :
     of 74 and 7 octets. -/
 example : (splitCRLF (utf8 (foldline (List.replicate 40 'é')))).map List.length = [74, 7] := by
   decide
+
+/-! ## Regenerated function body = hand model
+
+  `ICal.Gen.BodiesFold.foldline` is written by tools/py2lean.py from the current source text of
+  `parser.foldline` on every run: the `try: line.encode('ascii')` test, the ASCII path
+  `fold_sep.join(line[i:i + limit - 1] for i in range(0, len(line), limit - 1))` and the
+  per-character loop with `byte_count` and `len(char.encode(DEFAULT_ENCODING))`.  The two `assert`s
+  are preconditions (not evaluated; python -O is not modelled).  The theorems prove it equal to the
+  model `foldlineWith` / `foldline` that every theorem above is about, for every `limit >= 2`
+  (`limit == 1` raises ValueError in the source: `range()` step 0) and with the defaults read from the source. -/
+
+theorem body_foldline_with (limit : Nat) (hl : 2 ≤ limit) (sep line : Str) :
+    Gen.BodiesFold.foldline line (limit : Int) sep = .ok (foldlineWith limit sep line) :=
+  Bodies.foldline_eq limit hl sep line
+
+theorem body_foldline (line : Str) :
+    Gen.BodiesFold.foldline line (Gen.foldLimit : Int) Gen.foldSep = .ok (foldline line) :=
+  Bodies.foldline_default_eq line
+
+example : (Gen.BodiesFold.foldline (List.replicate 4 'é') 5 ['|']).toOption = some "éé|éé".toList := by decide
+example : (Gen.BodiesFold.foldline "abcdefg".toList 4 ['|']).toOption = some "abc|def|g".toList := by decide
+example : (Gen.BodiesFold.foldline ['a'] 1 Gen.foldSep).toOption = none := by decide
 
 end ICal.C06
